@@ -118,6 +118,71 @@ theorem assignAll_map_spec {α : Type} (mk : Str → Nat → Str) (start : Nat)
   obtain ⟨l, h1, h2, h3⟩ := assignAll_spec mk start hinj (xs.map f)
   exact ⟨l, h1, h2, by rw [h3, List.length_map]⟩
 
+/-! ### every assigned name is a base or a suffixed base; a dataclass field is never called `field` (F5 repaired) -/
+
+theorem freshName_shape {mk : Nat → Str} {start : Nat} {seen : List Str} {base n : Str}
+    (h : freshName mk start seen base = some n) : n = base ∨ ∃ k, n = mk k := by
+  unfold freshName at h
+  split at h
+  · cases hf : findFresh mk seen start (seen.length + 1) with
+    | none => rw [hf] at h; cases h
+    | some k => rw [hf] at h; exact Or.inr ⟨k, (Option.some.inj h).symm⟩
+  · exact Or.inl (Option.some.inj h).symm
+
+theorem assignAll_mem_shape (mk : Str → Nat → Str) (start : Nat) :
+    ∀ (bases seen l : List Str), assignAll mk start seen bases = some l →
+      ∀ n ∈ l, ∃ b ∈ bases, n = b ∨ ∃ k, n = mk b k := by
+  intro bases
+  induction bases with
+  | nil => intro seen l h n hn; simp only [assignAll, Option.some.injEq] at h; subst h; cases hn
+  | cons b bs ih =>
+    intro seen l h n hn
+    simp only [assignAll] at h
+    split at h
+    · cases h
+    · rename_i m hm
+      split at h
+      · cases h
+      · rename_i rest hr
+        have := Option.some.inj h
+        subst this
+        rcases List.mem_cons.mp hn with e | hn
+        · subst e
+          exact ⟨b, List.mem_cons_self, freshName_shape hm⟩
+        · obtain ⟨b', hb', hs⟩ := ih _ _ hr n hn
+          exact ⟨b', List.mem_cons_of_mem _ hb', hs⟩
+
+theorem dcFieldBase_ne_field (p : Str) : dcFieldBase p ≠ "field".toList := by
+  unfold dcFieldBase
+  simp only
+  split
+  · rename_i h
+    rw [beq_iff_eq.mp h]
+    decide
+  · rename_i h
+    intro e
+    exact h (by rw [e]; exact beq_self_eq_true _)
+
+/-- The request is `sanitize_method_name(prop)` unless that is `field`. -/
+theorem dcFieldBase_eq (p : Str) :
+    dcFieldBase p = if sanMethod p = "field".toList then "field_".toList else sanMethod p := by
+  unfold dcFieldBase
+  simp only
+  by_cases h : sanMethod p = "field".toList
+  · rw [if_pos h, if_pos (by rw [h]; rfl), h]; rfl
+  · rw [if_neg h, if_neg (by intro e; exact h (beq_iff_eq.mp e))]
+
+/-- No field identifier of a dataclass is `field`: a requested name never is (`dcFieldBase`), and a suffixed one contains `_`. -/
+theorem fieldNames_ne_field (props l : List Str) (h : fieldNames props = some l) : "field".toList ∉ l := by
+  intro hm
+  obtain ⟨b, hb, hs⟩ := assignAll_mem_shape sufUnderscore 2 _ _ _ h _ hm
+  obtain ⟨p, _, hp⟩ := List.mem_map.mp hb
+  rcases hs with e | ⟨k, e⟩
+  · exact dcFieldBase_ne_field p (hp.trans e.symm)
+  · have : '_' ∈ "field".toList := by rw [e]; simp [sufUnderscore]
+    revert this
+    decide
+
 /-! ### A suffixed identifier stays a non-keyword identifier -/
 
 theorem sufUnderscore_valid (base : Str) (k : Nat) (h : isPyIdent base = true) :
